@@ -456,7 +456,18 @@ func c12ErrKinds(err error) []string {
 	return ks
 }
 
-const c12Watchdog = 20 * time.Second
+const c12WatchdogFull = 20 * time.Second
+
+// c12Hung is set once a watchdog has expired in this process: the implementation under test blocks, and every
+// further op would wait the full period again — later ops use a short period so that the run still ends
+var c12Hung atomic.Bool
+
+func c12Watchdog() time.Duration {
+	if c12Hung.Load() {
+		return 300 * time.Millisecond
+	}
+	return c12WatchdogFull
+}
 
 // c12Call runs f under a watchdog; false = it did not return
 func c12Call(f func()) bool {
@@ -465,22 +476,92 @@ func c12Call(f func()) bool {
 	select {
 	case <-done:
 		return true
-	case <-time.After(c12Watchdog):
+	case <-time.After(c12Watchdog()):
+		c12Hung.Store(true)
 		return false
 	}
 }
 
-// c12LoopAlive reports whether any flushLoop goroutine is still running (polled: the goroutine needs a moment to exit)
+// c12LoopState returns the scheduler state of the flushLoop goroutine ("select", "running", "sync.Mutex.Lock", …) or
+// "" when there is none. With several such goroutines (leaked ones) the first not in "select" wins.
+var (
+	c12StackMu  sync.Mutex
+	c12StackBuf = make([]byte, 1<<18)
+)
+
+func c12LoopState() string {
+	c12StackMu.Lock()
+	defer c12StackMu.Unlock()
+	buf := c12StackBuf
+	n := runtime.Stack(buf, true)
+	state := ""
+	for _, g := range bytes.Split(buf[:n], []byte("\n\n")) {
+		if !bytes.Contains(g, []byte("BufferedWriteSyncer).flushLoop")) {
+			continue
+		}
+		hdr := g
+		if i := bytes.IndexByte(g, '\n'); i >= 0 {
+			hdr = g[:i]
+		}
+		st := "?"
+		if i, j := bytes.IndexByte(hdr, '['), bytes.IndexByte(hdr, ']'); i >= 0 && j > i {
+			st = string(hdr[i+1 : j])
+			if k := strings.IndexByte(st, ','); k >= 0 {
+				st = st[:k]
+			}
+		}
+		// the select is only "at rest" when the goroutine is parked in flushLoop itself, not in a select of a callee
+		if st == "select" {
+			for _, ln := range bytes.Split(g[len(hdr):], []byte("\n")) {
+				if len(ln) == 0 || ln[0] == '\t' || bytes.HasPrefix(ln, []byte("runtime.")) {
+					continue // blank, file:line of the previous frame, or a runtime frame (GOTRACEBACK=system)
+				}
+				if !bytes.Contains(ln, []byte("BufferedWriteSyncer).flushLoop")) {
+					st = "select-in-callee"
+				}
+				break
+			}
+		}
+		if st != "select" {
+			return st
+		}
+		state = st
+	}
+	return state
+}
+
+// c12AwaitLoopIdle waits until the flush goroutine is parked in its select again (the tick it took has been processed)
+func c12AwaitLoopIdle() bool {
+	deadline := time.Now().Add(c12Watchdog())
+	for {
+		if st := c12LoopState(); st == "select" || st == "" {
+			return true
+		}
+		if time.Now().After(deadline) {
+			c12Hung.Store(true)
+			return false
+		}
+		time.Sleep(20 * time.Microsecond)
+	}
+}
+
+// c12LoopAlive reports whether any flushLoop goroutine is still running (polled for up to 2 s: after closing `done`
+// the goroutine needs a moment to exit, more on a loaded machine)
 func c12LoopAlive() bool {
-	buf := make([]byte, 1<<20)
-	for i := 0; i < 200; i++ {
+	c12StackMu.Lock()
+	defer c12StackMu.Unlock()
+	buf := c12StackBuf
+	deadline := time.Now().Add(2 * time.Second)
+	for {
 		n := runtime.Stack(buf, true)
 		if !bytes.Contains(buf[:n], []byte("BufferedWriteSyncer).flushLoop")) {
 			return false
 		}
+		if time.Now().After(deadline) {
+			return true
+		}
 		time.Sleep(50 * time.Microsecond)
 	}
-	return true
 }
 
 func c12EvStrings(evs []c12Ev) []string {
@@ -545,7 +626,7 @@ func c12Seq(op c12Op) Result {
 			var n int
 			var err error
 			if !c12Call(func() { n, err = b.Write(caller) }) {
-				return Result{Impl: map[string]any{"deadlock": i}, Oracle: bad("C12:deadlock", "Write (op %d) did not return within %v", i, c12Watchdog), Nontrivial: true, Shape: "seq/deadlock"}
+				return Result{Impl: map[string]any{"deadlock": i}, Oracle: bad("C12:deadlock", "Write (op %d) did not return within %v", i, c12Watchdog()), Nontrivial: true, Shape: "seq/deadlock"}
 			}
 			for j := range caller {
 				caller[j] = 0xEE // the caller may reuse its slice after Write returns
@@ -565,13 +646,13 @@ func c12Seq(op c12Op) Result {
 		case st.O == "s":
 			var err error
 			if !c12Call(func() { err = b.Sync() }) {
-				return Result{Impl: map[string]any{"deadlock": i}, Oracle: bad("C12:deadlock", "Sync (op %d) did not return within %v", i, c12Watchdog), Nontrivial: true, Shape: "seq/deadlock"}
+				return Result{Impl: map[string]any{"deadlock": i}, Oracle: bad("C12:deadlock", "Sync (op %d) did not return within %v", i, c12Watchdog()), Nontrivial: true, Shape: "seq/deadlock"}
 			}
 			r["e"] = c12ErrKinds(err)
 		case st.O == "x":
 			var err error
 			if !c12Call(func() { err = b.Stop() }) {
-				return Result{Impl: map[string]any{"deadlock": i}, Oracle: bad("C12:deadlock", "Stop (op %d) did not return within %v", i, c12Watchdog), Nontrivial: true, Shape: "seq/deadlock"}
+				return Result{Impl: map[string]any{"deadlock": i}, Oracle: bad("C12:deadlock", "Stop (op %d) did not return within %v", i, c12Watchdog()), Nontrivial: true, Shape: "seq/deadlock"}
 			}
 			r["e"] = c12ErrKinds(err)
 		case st.O == "t":
@@ -583,23 +664,21 @@ func c12Seq(op c12Op) Result {
 				select {
 				case clk.ch <- time.Unix(0, 0):
 					fail(bad("C12:loop-alive-after-stop", "op %d: a tick was received after Stop had returned", i))
-					<-sink.syncSig
+					c12AwaitLoopIdle()
 				case <-time.After(200 * time.Microsecond):
 				}
 				break
 			}
 			select {
 			case clk.ch <- time.Unix(0, 0):
-			case <-time.After(c12Watchdog):
-				return Result{Impl: map[string]any{"deadlock": i}, Oracle: bad("C12:deadlock", "the flush loop did not take a tick (op %d) within %v", i, c12Watchdog), Nontrivial: true, Shape: "seq/deadlock"}
+			case <-time.After(c12Watchdog()):
+				c12Hung.Store(true)
+				return Result{Impl: map[string]any{"deadlock": i}, Oracle: bad("C12:deadlock", "the flush loop did not take a tick (op %d) within %v", i, c12Watchdog()), Nontrivial: true, Shape: "seq/deadlock"}
 			}
-			select {
-			case <-sink.syncSig:
-			case <-time.After(c12Watchdog):
-				return Result{Impl: map[string]any{"deadlock": i}, Oracle: bad("C12:deadlock", "the flush loop did not finish its Sync (op %d) within %v", i, c12Watchdog), Nontrivial: true, Shape: "seq/deadlock"}
+			// processed = the goroutine is parked in its select again (no reliance on the sink seeing a Sync)
+			if !c12AwaitLoopIdle() {
+				return Result{Impl: map[string]any{"deadlock": i}, Oracle: bad("C12:deadlock", "the flush loop did not finish processing a tick (op %d) within %v", i, c12Watchdog()), Nontrivial: true, Shape: "seq/deadlock"}
 			}
-			// the loop's Sync still holds the mutex for a moment: a Sync of our own is NOT used to wait (it would add
-			// events); the next operation serialises behind the mutex, and the events are already recorded
 			tickProcessed = true
 		default:
 			panic("unknown step " + st.O)
@@ -877,7 +956,7 @@ func c12Conc(op c12Op) Result {
 		_ = b.Sync()
 	}
 	if !c12Call(body) {
-		return Result{Impl: map[string]any{"deadlock": true}, Oracle: bad("C12:deadlock", "the concurrent program did not finish within %v", c12Watchdog), Nontrivial: true, Shape: "conc/deadlock"}
+		return Result{Impl: map[string]any{"deadlock": true}, Oracle: bad("C12:deadlock", "the concurrent program did not finish within %v", c12Watchdog()), Nontrivial: true, Shape: "conc/deadlock"}
 	}
 	evs := sink.since(0)
 	// the sink stream must parse into whole records, each exactly once, per goroutine in order; every sink write is whole records
@@ -1012,7 +1091,7 @@ func c12Crash(op c12Op) Result {
 	select {
 	case <-ready:
 	case <-readDone:
-	case <-time.After(c12Watchdog):
+	case <-time.After(c12Watchdog()):
 	}
 	time.Sleep(time.Duration(op.Kill) * time.Microsecond)
 	_ = cmd.Process.Signal(syscall.SIGKILL)
